@@ -110,7 +110,8 @@ THEOREMS = {
             "Spydr.Verilog.Elab.bodyGo_asg", "Spydr.Verilog.Elab.topGo_mod", "Spydr.Verilog.Elab.parse_hierA", "Spydr.Verilog.Elab.assigns_foldA", "Spydr.Verilog.Elab.instances_foldA", "Spydr.Verilog.Elab.moduleText_topA", "Spydr.Verilog.Elab.anys_textA", "Spydr.Verilog.Elab.composeV_text_hierA", "Spydr.Verilog.Elab.chars_asgP", "Spydr.Verilog.Elab.toks_asgP", "Spydr.Verilog.Elab.chars_modPA", "Spydr.Verilog.Elab.toks_modPA", "Spydr.Verilog.Elab.chars_filePHA", "Spydr.Verilog.Elab.toks_filePHA", "Spydr.Verilog.Elab.c04_text_hierA", "Spydr.Verilog.Elab.exNetHA_struct", "Spydr.Verilog.Elab.exNetHA_roundtrip",
             "Spydr.Verilog.Elab.elabModule_eq_tailGP", "Spydr.Verilog.Elab.buildW3_params", "Spydr.Verilog.Elab.foldInst_params", "Spydr.Verilog.Elab.foldAsg_params", "Spydr.Verilog.Elab.headerParamsGo_toks", "Spydr.Verilog.Elab.headerParams_toks", "Spydr.Verilog.Elab.moduleP_toksP", "Spydr.Verilog.Elab.params_text", "Spydr.Verilog.Elab.chars_mparamP", "Spydr.Verilog.Elab.toks_mparamP",
             "Spydr.Verilog.Elab.astLeafU_iface", "Spydr.Verilog.Elab.moduleText_leafU", "Spydr.Verilog.Elab.chars_leafPU", "Spydr.Verilog.Elab.toks_leafPU", "Spydr.Verilog.Elab.preprocess_filter", "Spydr.Verilog.Elab.leafToksU_filter", "Spydr.Verilog.Elab.toks_filePHA", "Spydr.Verilog.Elab.parseV_dropC",
-            "Spydr.Verilog.Elab.elabModule_prim", "Spydr.Verilog.Elab.elabModule_leafX", "Spydr.Verilog.Elab.buildLeafX_facts", "Spydr.Verilog.Elab.moduleP_leafX", "Spydr.Verilog.Elab.topGo_leafX", "Spydr.Verilog.Elab.moduleText_leafX", "Spydr.Verilog.Elab.chars_leafPX", "Spydr.Verilog.Elab.toks_leafPX", "Spydr.Verilog.Elab.leafToksXU_filter"],
+            "Spydr.Verilog.Elab.elabModule_prim", "Spydr.Verilog.Elab.elabModule_leafX", "Spydr.Verilog.Elab.buildLeafX_facts", "Spydr.Verilog.Elab.moduleP_leafX", "Spydr.Verilog.Elab.topGo_leafX", "Spydr.Verilog.Elab.moduleText_leafX", "Spydr.Verilog.Elab.chars_leafPX", "Spydr.Verilog.Elab.toks_leafPX", "Spydr.Verilog.Elab.leafToksXU_filter",
+            "Spydr.Verilog.Elab.splitKey_sound", "Spydr.Verilog.Elab.hp_last", "Spydr.Verilog.Elab.hp_more", "Spydr.Verilog.Elab.chars_keyP", "Spydr.Verilog.Elab.toks_keyP"],
 }
 
 
